@@ -8,11 +8,29 @@ ALL_IDS = [f"C{i:02d}" for i in range(1, 31)]
 
 # id -> dict(category, text, note, technique, design_ref)
 CHECKS = {
+    "C02": dict(
+        category="exploration",
+        technique="BaseException net around the real main.execute / smoke.execute for accepted models x 8 targets + smoke; crash mechanisms keyed by exception class, innermost repo function and normalised contract text",
+        text="Every fixture model, generated models (incl. shapes the statement names: no concrete class, empty classes, lists of lists/primitives, zero-admitting and crossing length bounds, mid-pattern anchors) and lightly mutated accepted models are run through all eight generators and the smoke tool in-process with complete snippet directories; any escaping exception, a non-int return, exit 0 without output or non-zero exit with empty stderr is a violation.",
+        note="The pinned tree crashes at ~28 generator sites (unimplemented cases); they are listed one by one in known_findings.json by mechanism, any other site is reported.",
+    ),
     "C05": dict(
         category="exploration",
         technique="walk of the real symbol table vs independent ast-only reference of the class DAG (differential monitor)",
         text="The symbol table returned by the real front end is compared, for hundreds (quick) to thousands (thorough) of generated class DAGs with diamonds, multiple inheritance, constrained-primitive chains and model-type markers, with an independent reference computed from the source by Python's ast only: ancestor/descendant sets without duplicates, member stacking order, constructor in-lining, interfaces, topological order, model-type propagation.",
         note="Reference front end (vf/pyexec.py) is trusted; order inside one declaring class is not judged; finite sampling of DAG shapes.",
+    ),
+    "C06": dict(
+        category="exploration",
+        technique="single-rule mutation of accepted models judged by the real front end; unmutated and benign twins as false-rejection controls",
+        text="26 mutators, one per structural rule of the statement, are applied to accepted generated and fixture models; each mutated model must be rejected by run.load_model, while the unparsed original and a benign twin of the same edit shape must be accepted.",
+        note="A crash on a mutated model is left to C01; which message is reported is not judged.",
+    ),
+    "C07": dict(
+        category="exploration",
+        technique="execution of the meta-model's own invariant lambdas (Python semantics) on type-conforming instances for models the real type checker accepts, with one typing obligation flipped per model",
+        text="Hundreds (quick) to thousands (thorough) of models carry one deliberately mistyped invariant (15 mistyping kinds); for those the real front end and type inference accept, every invariant is executed by Python on type-conforming instances (None wherever Optional) and must return a bool or raise IndexError only. Failures are classified by whether None is involved and where; the rejected ones are counted as evidence that the monitor exercises the checker.",
+        note="'Accepts' = load_model succeeds and the Python generator (which runs type inference on every invariant) exits 0. Kind-mismatch acceptance is upstream design and listed per kind in known_findings.json; any other None-dereference is a violation.",
     ),
     "C08": dict(
         category="exploration",
@@ -37,6 +55,12 @@ CHECKS = {
         technique="differential monitor: generated constants/enums/stringification vs values Python computes from the source",
         text="Every constant, constant set (incl. superset_of chains, sets of enum literals) and enumeration of generated models is compared with the value obtained by executing the meta-model source with shim markers; <enum>_from_str is probed on literal values and neighbouring texts.",
         note="constant_bytearray cannot be written in the accepted subset (ast.Constant never holds a bytearray) and is therefore not exercised.",
+    ),
+    "C26": dict(
+        category="exploration",
+        technique="bounded-exhaustive enumeration of flow shapes x prefix tree of condition-outcome sequences; differential execution of a structured generator interpreter vs a resumable state machine over the real linearize_to_subroutines output; second leg compiles generate_execute_body output with g++ ASan/UBSan and compares per-call traces",
+        text="All flows <=5 nodes/nesting <=2 (quick, 151k) or <=5 nodes/nesting <=3 (thorough, 289k, then size 6 as far as the budget allows) plus seeded random flows up to 30 nodes, each under all outcome sequences up to length 5-6 and random longer ones: millions of trace comparisons, static label/target checks per flow, 10k-38k sanitised C++ traces.",
+        note="Bounded: larger or deeper flows are only sampled; outcomes are scripted by one tape with loop-terminating defaults. exhaustive:true only for the completed bound recorded in evidence.",
     ),
     "C27": dict(
         category="exploration",
